@@ -307,6 +307,7 @@ namespace
         if (shape == "tsds") return run_shape<ShapeDictS>(script);
         if (shape == "tsdb") return run_shape<ShapeDictB>(script);
         if (shape == "tsl") return run_shape<ShapeTSL>(script);
+        if (shape == "tsldyn") return run_shape<ShapeDynL>(script);
         if (shape == "tsls") return run_shape<ShapeListS>(script);
         if (shape == "tslb") return run_shape<ShapeListB>(script);
         if (shape == "tsll") return run_shape<ShapeListL>(script);
@@ -346,6 +347,7 @@ void verif_enumerate(verif::Ctx &ctx)
         {"tsds", {"a1:1", "a1:2", "r1:1", "a2:1", "e1", "e2"}, 2, th ? 4 : 3},
         {"tsdb", {"1a=5", "1b=6", "2a=5", "1a=7", "e1", "e2"}, 2, th ? 4 : 3},
         {"tsl", {"0=1", "0=2", "1=1"}, 2, th ? 5 : 4},
+        {"tsldyn", {"0=1", "0=2", "1=1", "2=1", "4=1"}, 2, th ? 4 : 3},   // grow-only dynamic list, growth past unset slots
         {"tsls", {"0+1", "0-1", "1+1", "1+2", "1-1"}, 2, th ? 4 : 3},
         {"tslb", {"0a=1", "0b=2", "1a=3", "0a=4", "1b=5"}, 2, th ? 4 : 3},   // list elements that are bundles, completed one member at a time
         {"tsll", {"00=1", "01=2", "10=3", "00=4"}, 2, th ? 4 : 3},
